@@ -7,8 +7,9 @@
     rendering of the same MIR by the compiler itself) -- a mismatch is a checker error, not a verdict;
  3. checker self-test sweep: every mutant in mutants/mutants.json that names this property (one broken rule
     instance each, applied to a scratch copy under /var/tmp, compile-checked only, never run) must be reported
-    by this property's check, every behaviour-preserving variant must NOT be, and every independently seeded
-    change (seeded/*/meta.json) that this property reported before must still be reported;
+    by this property's check, every behaviour-preserving variant (mine, and the refactorings written by
+    independent sub-agents under benign/) must NOT be, and every independently seeded change
+    (seeded/*/meta.json) that this property reported before must still be reported;
  4. clippy `disallowed-methods` generated from the R-PROBE table as a type-resolved second opinion on that
     one rule (recorded in the evidence, never decides).
 
@@ -141,7 +142,15 @@ def selftest(prop, jobs=12):
             meta = json.load(open(mp))
             if prop in meta.get("static_checks", {}).get("fired", []):
                 seeds.append(dict(name="seed-" + sid, patch=os.path.join(sd, sid, "patch.diff"), expect=[prop]))
-    res = dict(mutants=[], benign=[], seeded=[])
+    # behaviour-preserving refactorings written by independent sub-agents: must stay quiet
+    bd = os.path.join(VERIF, "benign")
+    refacs = []
+    if os.path.isdir(bd):
+        for bid in sorted(os.listdir(bd)):
+            pp = os.path.join(bd, bid, "patch.diff")
+            if os.path.exists(pp):
+                refacs.append(dict(name="refac-" + bid, patch=pp, expect=[], quiet=True))
+    res = dict(mutants=[], benign=[], seeded=[], refactorings=[])
 
     def one(m):
         if "patch" in m:
@@ -156,6 +165,8 @@ def selftest(prop, jobs=12):
                 env = dict(os.environ, XCPV_REPO=s, XCPV_NOEVIDENCE="1", XCPV_CACHE_SUFFIX="mut", VERIF_TIER="quick")
                 q = subprocess.run([os.path.join(VERIF, "verif"), "check", prop], env=env, cwd=VERIF, stdout=subprocess.PIPE,
                                    stderr=subprocess.STDOUT, text=True)
+                if m.get("quiet"):
+                    return dict(name=m["name"], ok=q.returncode == 0, rc=q.returncode)
                 return dict(name=m["name"], ok=q.returncode == 1, rc=q.returncode)
             finally:
                 if s:
@@ -168,7 +179,7 @@ def selftest(prop, jobs=12):
         return dict(name=m["name"], ok=rc == 1, rc=rc, detail=r.get("detail", ""))
 
     with cf.ThreadPoolExecutor(max_workers=jobs) as ex:
-        for kind, lst in (("mutants", muts), ("benign", ben), ("seeded", seeds)):
+        for kind, lst in (("mutants", muts), ("benign", ben), ("seeded", seeds), ("refactorings", refacs)):
             for r in ex.map(one, lst):
                 res[kind].append(r)
     return res
@@ -224,12 +235,16 @@ def run(ctx, spec):
                      missed=[r["name"] for r in st["mutants"] if not r["ok"]]),
         benign=dict(run=len(st["benign"]), quiet=sum(1 for r in st["benign"] if r["ok"]),
                     false_alarms=[r["name"] for r in st["benign"] if not r["ok"]]),
+        refactorings=dict(run=len(st["refactorings"]), quiet=sum(1 for r in st["refactorings"] if r["ok"] and not r.get("stale")),
+                          stale=[r["name"] for r in st["refactorings"] if r.get("stale")],
+                          false_alarms=[r["name"] for r in st["refactorings"] if not r["ok"]]),
         seeded=dict(run=len(st["seeded"]), caught=sum(1 for r in st["seeded"] if r["ok"] and not r.get("stale")),
                     stale=[r["name"] for r in st["seeded"] if r.get("stale")],
                     missed=[r["name"] for r in st["seeded"] if not r["ok"]]))
     if prop == "C04":
         extra["clippy_disallowed_methods"] = clippy_probe_crossref()
     ctx.rep.extra["thorough"] = extra
-    bad = extra["selftest"]["mutants"]["missed"] + extra["selftest"]["benign"]["false_alarms"] + extra["selftest"]["seeded"]["missed"]
+    bad = extra["selftest"]["mutants"]["missed"] + extra["selftest"]["benign"]["false_alarms"] + \
+        extra["selftest"]["seeded"]["missed"] + extra["selftest"]["refactorings"]["false_alarms"]
     if bad:
         raise ThoroughFailure("checker self-test failed for %s: %s" % (prop, bad))
